@@ -1,4 +1,5 @@
 import TD.C05.LemWriter
+import TD.C05.LemStrip
 /-!
 C05 — property theorems (LIS physical records: what is written is what is read, at any position; TIF stripping).
 
@@ -23,5 +24,38 @@ trailer (payload 6), TIF on, a 13-byte record (three PRs) and a 2-byte record -/
 example : let L : Layout := ⟨12, true, none, false, .le⟩
     L.Valid ∧ L.tif ≠ .be ∧ (L.tif = .le → fileSize L [[1,2,3,4,5,6,7,8,9,10,11,12,13],[1,2]] < 4294967296)
     ∧ tellOf L [[1,2,3,4,5,6,7,8,9,10,11,12,13],[1,2]] 1 = 67 := by decide
+
+
+/-- **strip_tif.** For a layout with (normal) TIF markers, at least one record, no empty record and a file shorter
+than 2^32 bytes, `DeTif.strip_tif` applied to the TIF-marked encoding returns exactly the encoding of the same records
+under the same layout without TIF markers; it reports one stripped marker per physical record plus the two EOF markers
+and the size of the unmarked file as the number of bytes written. -/
+theorem strip_tif_encode (L : Layout) (rs : List Bytes) (hL : L.Valid) (hle : L.tif = .le)
+    (hne : rs ≠ []) (hr : ∀ r ∈ rs, r ≠ []) (hsz : fileSize L rs < 4294967296) :
+    stripTif (encode L rs) = .ok (encode L.noTif rs, numPRs L rs + 2, (encode L.noTif rs).length) :=
+  stripTif_encode L hL hle rs hne hr hsz
+
+/-- **strip_tif (write tif rs) = write noTif rs**, on the writer model: stripping what the writer produced with TIF
+markers gives byte for byte what the writer produces without them. -/
+theorem strip_tif_write (L : Layout) (rs : List Bytes) (hL : L.Valid) (hle : L.tif = .le)
+    (hne : rs ≠ []) (hr : ∀ r ∈ rs, r ≠ []) (hb : ∀ r ∈ rs, ∀ x ∈ r, x < 256)
+    (hsz : fileSize L rs < 4294967296) :
+    ∃ fTif fPlain tells tells' n w,
+      writeFile true L.prMax L.hasRec L.fileNum L.hasChk rs = .ok (fTif, tells)
+      ∧ writeFile false L.prMax L.hasRec L.fileNum L.hasChk rs = .ok (fPlain, tells')
+      ∧ stripTif fTif = .ok (fPlain, n, w) := by
+  have h1 := writer_layout L rs hL (by rw [hle]; intro h; cases h) hb (fun _ => hsz)
+  have hL' : L.noTif.Valid := hL
+  have h2 := writer_layout L.noTif rs hL' (by intro h; cases h) hb (by intro h; cases h)
+  have e1 : (L.tif != TifMode.off) = true := by rw [hle]; rfl
+  have e2 : (L.noTif.tif != TifMode.off) = false := rfl
+  rw [e1] at h1
+  rw [e2] at h2
+  exact ⟨_, _, _, _, _, _, h1, h2, strip_tif_encode L rs hL hle hne hr hsz⟩
+
+/-- hypotheses of `strip_tif_encode` are satisfiable (record-number and checksum trailers, two records, 3+1 PRs) -/
+example : let L : Layout := ⟨14, true, none, true, .le⟩
+    let rs : List Bytes := [[1,2,3,4,5,6,7,8,9,10,11,12,13],[1,2]]
+    L.Valid ∧ L.tif = .le ∧ rs ≠ [] ∧ (∀ r ∈ rs, r ≠ []) ∧ fileSize L rs < 4294967296 ∧ numPRs L rs = 4 := by decide
 
 end TD.C05
